@@ -14,7 +14,8 @@ RULE = ("exhaustive over forms: every mnemonic pdpy11 accepts (cross-checked wit
         "ac0-ac5 / ac0-ac3; every value of every inline field with both rejected neighbours); random over values: 5-40 instruction "
         "programs with drawn operand values (16-bit boundaries), literal or symbolic spelling (defined before or after use), "
         "labels, link bases and number/register spellings, one program in four standing in an included or second linked file "
-        "that starts at a non-zero offset. Oracle: R1 encoder bytes == image AND R1 decoder(image) == generated "
+        "that starts at a non-zero offset; names: every mnemonic next to a constant or label of the same name, and every branch "
+        "mnemonic to numeric local labels (also names with the digits 8 and 9, with decoy labels). Oracle: R1 encoder bytes == image AND R1 decoder(image) == generated "
         "operation. Non-trivial: instruction with >= 1 operand or inline field; distinct by (mnemonic, operand forms) in the "
         "exhaustive part and by program text in the random part.")
 ASSUMPTIONS = ["vf/ref/pdp11.py is the PDP-11 reference (handbook rows independent; rows in PINNED are change detection only)",
@@ -85,6 +86,8 @@ def shards(tier):
         specs.append({"part": "double", "mn": m, "frac": frac})
     specs.append({"part": "inline"})
     specs.append({"part": "tables"})
+    specs.append({"part": "names", "half": 0})
+    specs.append({"part": "names", "half": 1})
     k = 16
     per = (1600 if tier == "quick" else 20000) // k
     for i in range(k):
@@ -296,6 +299,53 @@ def run_shard(spec, ctx):
             case = {"kind": "equiv", "variants": variants}
             for sg, msg in oracle.check_equiv(case, prefix="synonym:"):
                 ctx.fail(sg + ":" + canon, msg, case)
+    elif part == "names":
+        # (a) a symbol that carries the name of a mnemonic (constant before / label before / constant after the use) does not
+        # change what the mnemonic assembles to; (b) branches to numeric local labels, also names with the digits 8 and 9
+        canon_ops = {"G": ("idx", 3, 0o1234), "F": ("dec", 2), "R": ("reg", 5), "A": ("ac", 2), "B": ("tgtd", 6), "S": ("tgtd", -4),
+                     "N8": ("num", 0o123), "N6": ("num", 0o45), "N3": ("num", 5)}
+        for i, mn in enumerate(P.mnemonics()):
+            if i % 2 != spec["half"]:
+                continue
+            ops = [canon_ops[s_] for s_ in P.signature(mn)]
+            for how in ("const-before", "label-before", "const-after"):
+                pre = {"const-before": f"{mn} = 1234\n", "label-before": f"{mn}:\n", "const-after": ""}[how]
+                post = f"{mn} = 1234\n" if how == "const-after" else ""
+                a0 = 0o1000
+                real = [("tgt", a0 + 2 + o[1]) if o[0] == "tgtd" else o for o in ops]
+                words = P.encode(mn, real, a0)
+                line = render.stmt_lines({"k": "insn", "mn": mn, "ops": [to_model(o) if o[0] != "tgtd" else ("tgt", tgt_expr(o[1] + 2, 0)) for o in ops]})
+                text = pre + "\n".join(line) + "\n\t.word " + mn + "\n" + post
+                want = b"".join(struct.pack("<H", w) for w in words) + struct.pack("<H", a0 if how == "label-before" else 0o1234)
+                ctx.case(text, True, ["name-" + how], sample=text if (i, how) in ((0, "const-before"), (7, "label-before")) else None)
+                case = oracle.expect_ok(oracle.single(text), want, base=a0)
+                for sg, msg in oracle.check_expect(case, prefix=f"names:{how}:"):
+                    ctx.fail(sg, f"{text!r}: {msg}", case)
+        if spec["half"] == 0:
+            for mn in [m for m in P.mnemonics() if P.signature(m) in (["B"], ["R", "S"])]:
+                reg = "r3, " if P.signature(mn) != ["B"] else ""
+                for name in ("8", "9", "18", "89", "1", "7", "08", "10", "10$", "8$", "19$"):
+                    ref = name
+                    variants = {"back": f"scope:\n{name}:\t{mn} {reg}{ref}\n", "back-far": f"scope:\n{name}:\tnop\n\tnop\n\t{mn} {reg}{ref}\n",
+                                "fwd": f"scope:\t{mn} {reg}{ref}\n{name}:\tnop\n", "decoy": f"scope:\n10:\tnop\n11:\tnop\n22:\tnop\n{name}:\tnop\n\t{mn} {reg}{ref}\n" if name not in ("10",) else None}
+                    for vk, text in variants.items():
+                        if text is None:
+                            continue
+                        at = {"back": 0, "back-far": 4, "fwd": 0, "decoy": 8}[vk]
+                        tgt = {"back": 0, "back-far": 0, "fwd": 2, "decoy": 6}[vk]
+                        real = ([("reg", 3)] if reg else []) + [("tgt", 0o1000 + tgt)]
+                        try:
+                            word = P.encode(mn, real, 0o1000 + at)[0]
+                        except P.EncodeError:
+                            continue      # sob cannot go forward
+                        ctx.case(text, True, ["local-branch-" + vk, "local-name-89" if set(name) & set("89") else "local-name-octal"], sample=text if (mn, name, vk) == ("br", "18", "decoy") else None)
+                        out = driver.assemble([("/vf/c01n.mac", text)])
+                        case = {"kind": "expect", "tree": {"main.mac": text}, "mains": ["main.mac"], "charset": "bk",
+                                "expect": {"kind": "ok", "base": 0o1000, "code": (b"\xa0\x00" * (at // 2) + struct.pack("<H", word) + (b"\xa0\x00" if vk == "fwd" else b"")).hex()}}
+                        got = out.code[at:at + 2] if out.kind == "ok" else None
+                        if out.kind != "ok" or got != struct.pack("<H", word):
+                            ctx.fail(f"names:local-branch:{vk}:{'89' if set(name) & set('89') else 'octal'}",
+                                     f"{text!r}: {oracle.brief(out)}; the branch word must be {word:06o}", case)
     elif part == "random":
         run_random(spec, ctx)
 
